@@ -335,9 +335,8 @@ class NetworkDriver(Driver):
     def models(self, tier):
         ms = [{"A": A6_PATHISH, "directed": False, "w": W6, "la": {}},
               {"A": D6, "directed": True, "w": W6, "la": {}}]
-        if tier == "thorough":
-            ms.append({"A": A6_DISC, "directed": False, "w": None,
-                       "la": {"w": 0}})
+        ms.append({"A": A6_DISC, "directed": False, "w": None,
+                   "la": {"w": 0}})
         return ms
 
     def construct(self, model):
@@ -460,7 +459,9 @@ class InteractingDriver(NetworkDriver):
         return InteractingNetworks
 
     def models(self, tier):
-        return [{"A": A6, "directed": False, "w": W6, "la": {}}]
+        return [{"A": A6, "directed": False, "w": W6, "la": {}},
+                # two components and an isolated node: unreachable pairs
+                {"A": A6_DISC, "directed": False, "w": W6, "la": {}}]
 
     def mutators(self, model):
         # the Network mutators are explored on Network itself; here the
